@@ -257,6 +257,33 @@ FnProg(v, x) ==
         expect |-> (IF FnDefs(v) = <<>> THEN <<0>> ELSE <<>>) \o
                    (IF o[1] = "val" THEN <<o[2], 5, 7>> ELSE <<o[2], 5, 7, 5, 7>>),
         endk |-> "end", code |-> 0, line |-> 0])
+\* DEFINT / DEFSNG between the definition and the call: the parameter X denotes the variable the name X has when the function
+\* is CALLED.  Whatever happens - value or conversion error - X! and X% hold afterwards what they held before, also when the
+\* variable the parameter now denotes was never assigned (round-2 seeded change C20b did not restore a freshly allocated one).
+PD(lines, tag) == [lines |-> lines, vars |-> <<"I", "J", "A", "K%", "X!", "X%">>, ints |-> <<"K%", "FNK%", "X%">>,
+                   bare |-> <<[n |-> "X", i |-> "X%", f |-> "X!"]>>, tag |-> tag]
+DefType(t, ns) == [op |-> "DEFTYPE", t |-> t, ns |-> ns, col |-> TRUE]
+\* how: "int" = DEF FN, DEFINT X, call;  "sng" = DEFINT X, DEF FN, DEFSNG X, call;  pre: the variable the parameter denotes at the
+\* call was assigned 7 before (else it does not exist yet)
+FnDtProg(how, pre, x) ==
+    LET p   == IF pre THEN 7 ELSE 0
+        def == DefFn("FNA", <<"X">>, B("*", V("X"), C(2)))
+        xs  == IF how = "int" THEN 11 ELSE (IF pre THEN 7 ELSE 0)       \* X! before the call
+        xi  == IF how = "int" THEN p ELSE 13                             \* X% before the call
+        bad == how = "int" /\ (x > 32767 \/ x < -32768)
+    IN PD(<<Ln(5, <<[op |-> "ONERR", n |-> 100, col |-> TRUE]>>)>> \o
+          (IF how = "int"
+           THEN <<Ln(10, <<Let("X!", C(11))>>), Ln(20, <<def>>),
+                  Ln(25, <<DefType("%", <<"X">>)>> \o (IF pre THEN <<Let("X", C(7))>> ELSE <<>>))>>
+           ELSE <<Ln(10, <<DefType("%", <<"X">>), Let("X", C(13))>>), Ln(20, <<def>>),
+                  Ln(25, <<DefType("!", <<"X">>)>> \o (IF pre THEN <<Let("X", C(7))>> ELSE <<>>))>>) \o
+          <<Ln(30, <<Prt(Call("FNA", <<C(x)>>))>>),
+            Ln(40, <<Prt(V("X!")), Prt(V("X%")), EndS>>),
+            Ln(100, <<Prt([k |-> "err"]), Prt(V("X!")), Prt(V("X%")), [op |-> "RESUME", w |-> "NEXT", n |-> 0, col |-> TRUE]>>)>>,
+          [kind |-> "fndt",
+           expect |-> IF bad THEN <<6, xs, xi, xs, xi>> ELSE <<2 * x, xs, xi>>,
+           endk |-> "end", code |-> 0, line |-> 0])
+FnDtFamily == {FnDtProg(how, pre, x) : how \in {"int", "sng"}, pre \in BOOLEAN, x \in {0, 3, -3, 40000}}
 FnFamily == {FnProg(v, x) : v \in 1..9, x \in {0, 1, -3, 40000}}
 (* ---------------- C23: nothing survives CLEAR / RUN ---------------- *)
 ClearOrRun(r) == IF r = "clear" THEN <<Op("CLEAR")>> ELSE <<[op |-> "RUN", n |-> 300, col |-> TRUE]>>
